@@ -160,8 +160,19 @@ FailConv(e) ==
   \* an exception is justified only by a division whose divisor can be zero
   IF e.exc # "" THEN (IF hd /\ \E a \in A : RunZ(f, hd, a)[2] THEN {} ELSE {"exc"})
   ELSE IF e.rt = "bool" THEN
-          LET T == Truth(e.rb) IN
-          IF \A a \in A : LET r == RunZ(f, hd, a) IN r[2] \/ (r[1] = T1) \in T THEN {} ELSE {"unsound"}
+          LET T == Truth(e.rb)
+              \* truth values the term takes under the assignments that divide by no zero
+              TV == {RunZ(f, hd, a)[1] = T1 : a \in {b \in A : ~RunZ(f, hd, b)[2]}}
+              \* truth queries asked one after the other on the backend-wide caches; row = <<order, is_true, is_false,
+              \* satisfiable(extra c), satisfiable() after add(c), eval(c) lists True>> as 0/1 (-1: raised).
+              \* order 0: is_true first, order 1: is_false first.  An earlier query must not change a later answer.
+              TQ(q) == LET o == IF q[1] = 0 THEN "A" ELSE "B" IN
+                       (IF q[2] = 1 /\ FALSE \in TV THEN {"istrue-" \o o} ELSE {}) \cup
+                       (IF q[3] = 1 /\ TRUE \in TV THEN {"isfalse-" \o o} ELSE {}) \cup
+                       (IF (q[4] = 0 \/ q[5] = 0) /\ TRUE \in TV THEN {"unsat-" \o o} ELSE {}) \cup
+                       (IF q[6] = 0 /\ TRUE \in TV THEN {"evalT-" \o o} ELSE {}) \cup
+                       (IF \E k \in 2..6 : q[k] = 0 - 1 THEN {"tq-exc"} ELSE {})
+          IN (IF TV \subseteq T THEN {} ELSE {"unsound"}) \cup UNION {TQ(e.tq[i]) : i \in 1..Len(e.tq)}
        ELSE IF ~SameWidth(e.R, Width(e.t)) THEN {"width"}
        ELSE LET MR == MemV(e.R)
                 \* values of the term under every assignment that divides by no zero
